@@ -135,8 +135,9 @@ def joint_from_factors(mdist, cdists, strict=True):
 
     X_rv_names = mdist.get_rv_names()
     Y_rv_names = cdists[0].get_rv_names()
-    if X_rv_names and Y_rv_names:
-        rv_names = outcome_iter(X_rv_names, Y_rv_names, cdist_mask)
+    if X_rv_names and (Y_rv_names or cdists[0].outcome_length() == 0):
+        # (conditionals over no variable at all have no names to give)
+        rv_names = outcome_iter(X_rv_names, Y_rv_names or (), cdist_mask)
         d.set_rv_names(list(rv_names))
 
     return d
